@@ -173,6 +173,8 @@ register(PropertySpec(
              "the mode-off switch of an evaluation also sets the expression context (open `with <query>` blocks) aside, so user code that builds a query during evaluation is not bound to the enclosing block's query"),
         Rule("ALLOC-AS-UNDECORATED", _lazy("registry", "rule_alloc_as_undecorated"), 2,
              "outside a block a decorated class is allocated by the __new__ the undecorated class would use, with the arguments of the call"),
+        Rule("KWARGS-NAMESPACE", _lazy("predform", "rule_kwargs_namespace"), 6,
+             "the functions that carry the user's field names in **kwargs keep their own parameters out of that namespace (positional-only)"),
     ],
     explanation="The mode is a context variable with a closed set of writers, so confinement is a pairing property over "
                 "all exits of the code that writes it. Decided on the CFG with exceptional and generator-suspension "
@@ -479,6 +481,8 @@ register(PropertySpec(
              "the supplied domain is wrapped lazily, every member of it, and every member pulled is memoised before it is handed out"),
         Rule("SHARED-TAIL", _lazy("lazy", "rule_shared_tail"), 5,
              "an outer and a nested term over one pool variable iterate the same lazily consumed domain: each is handed what the other pulled"),
+        Rule("KWARGS-NAMESPACE", _lazy("predform", "rule_kwargs_namespace"), 6,
+             "the functions that carry the user's field names in **kwargs keep their own parameters out of that namespace (positional-only)"),
     ],
     explanation="Decides the construction-time clauses: positional binding re-implemented by the library agrees with "
                 "Python's (finite abstract evaluation of the loop over scenario argument lists), the type filter uses "
@@ -823,6 +827,8 @@ register(PropertySpec(
              "an index without keys (a comparison between two constants) records no coverage: later evaluations are not answered from an empty index"),
         Rule("REPLAY-FALSE-ASKED", _lazy("cacheidx", "rule_replay_false_asked"), 5,
              "a replay from a result cache hands false rows on only to an evaluation that asked for them (the cache also holds the false rows of an evaluation that did)"),
+        Rule("REQUEST-DELEGATED", _lazy("subquery", "rule_request_delegated"), 4,
+             "an evaluation method that delegates to another evaluation method of the same node hands the request for false rows on unchanged (entity and set_of sub-queries behave alike on the left of `|`)"),
     ],
     explanation="An implicit join is a join only if every operator threads the binding it received to its operands and "
                 "keeps everything its operands bound. Both are provenance facts on the evaluation call sites and the "
@@ -989,6 +995,8 @@ register(PropertySpec(
              "a domain that lists an object twice yields it once in every pass (one inferred instance per assignment, the same number in every evaluation)"),
         Rule("INFER-MARK", _lazy("ruletree", "rule_infer_mark"), 5,
              "a rule marks as inferred the selected variables it concludes on or that have no domain - not a flattened expression, not a domain variable selected next to them"),
+        Rule("KWARGS-NAMESPACE", _lazy("predform", "rule_kwargs_namespace"), 6,
+             "the functions that carry the user's field names in **kwargs keep their own parameters out of that namespace (positional-only)"),
     ],
     explanation="All clauses are weak but necessary: arguments evaluated under the current binding, one construction "
                 "per combination, no retrieval instead of construction for inferred variables, existing objects passed "
@@ -1034,6 +1042,8 @@ register(PropertySpec(
              "two wrapped values are the same exactly when their identifiers agree (equality = the identifier, which the hash is)"),
         Rule("FLATTEN-EACH", _lazy("extra", "rule_flatten_paths"), 2,
              "each element of a flattened collection is a value of its own (own identifier), so rows for different elements are different rows"),
+        Rule("REQUEST-DELEGATED", _lazy("subquery", "rule_request_delegated"), 4,
+             "an evaluation method that delegates to another evaluation method of the same node hands the request for false rows on unchanged (entity and set_of sub-queries behave alike on the left of `|`)"),
     ],
     explanation="Two of the six listed rewrites are decided: mirrored comparisons and contains/in_, by the OPDEN "
                 "denotation rule (C01). Commutativity/associativity of and/or, declaration/selection order and domain "
@@ -1092,6 +1102,8 @@ register(PropertySpec(
              "every evaluation of a quantified query (nested, selected, used as a domain) starts by resetting the duplicate-suppression state below it"),
         Rule("EVAL-PARENT-SET", _lazy("binding", "rule_eval_parent_set"), 9,
              "the operators that evaluate shareable operands tell the operand which of its parents is evaluating it, on every path to the evaluation"),
+        Rule("REQUEST-DELEGATED", _lazy("subquery", "rule_request_delegated"), 4,
+             "an evaluation method that delegates to another evaluation method of the same node hands the request for false rows on unchanged (entity and set_of sub-queries behave alike on the left of `|`)"),
     ],
     explanation="Decides the structural clauses of the three mechanisms the property is anchored in: (1) a quantifier node in "
                 "the middle of a tree is transparent for truth (same truth table as its conditions, request for false rows passed "
